@@ -8,6 +8,8 @@ shared memory (aliasing); device membership = film and not holes.
 """
 from __future__ import annotations
 
+import itertools
+
 import numpy as np
 from shapely.geometry import Point
 
@@ -140,15 +142,32 @@ def eval_pair(ctx, rng, with_model=True):
                     fail("operand-mutated", f"{tname}(inplace=False) mutated the original")
                 if np.shares_memory(r.points, src.points):
                     fail("aliasing", f"{tname}: result shares memory with the original")
+    # scaling: every sign pattern of the two factors (no reflection, one axis, the other axis, both = a rotation by
+    # 180 degrees), in place and not
+    mags = (float(rng.choice([0.5, 1.0, 1.5, 3.0])), float(rng.choice([0.7, 1.0, 2.0])))
+    for sx, sy, ip in itertools.product((1.0, -1.0), (1.0, -1.0), (False, True)):
+        fx, fy = sx * mags[0], sy * mags[1]
+        org = tuple(rng.uniform(-1, 1, 2))
+        src = p0.copy()
+        before = src.points.copy()
+        r = src.scale(xfact=fx, yfact=fy, origin=org, inplace=ip)
+        ctx.case(("scale", fx, fy, ip, float(before[0, 0])), nontrivial=True)
+        ctx.count("transform:scale" + ("_reflect" if fx * fy < 0 else ("_both_negative" if fx < 0 else "")) + ("_inplace" if ip else ""))
+        check_stored(ctx, r, f"scale({fx},{fy},inplace={ip})", fail)
+        if abs(r.area - abs(fx * fy) * A0) > 1e-9 * A0 * abs(fx * fy):
+            fail("area:scale", f"scale({fx},{fy}) gave area {r.area}, expected |fx fy| * {A0}")
+        if ip and r is not src:
+            fail("inplace-returns-copy", "scale(inplace=True) did not return the same object")
+        if not ip and (not np.array_equal(src.points, before) or np.shares_memory(r.points, src.points)):
+            fail("operand-mutated", "scale(inplace=False) mutated or aliases the original")
+        # the polygon's own vertices are on its boundary, a point next to them is not
+        vb = r.on_boundary(r.points, radius=1e-6)
+        if not bool(np.all(vb)):
+            fail("on-boundary", f"scale({fx},{fy},inplace={ip}): only {float(np.mean(vb)):.0%} of the polygon's own vertices are reported on its boundary")
     fx, fy = float(rng.choice([-2.0, -0.5, 0.5, 1.5, 3.0])), float(rng.choice([-1.5, 0.7, 2.0]))
     org = tuple(rng.uniform(-1, 1, 2))
     src = p0.copy()
     r = src.scale(xfact=fx, yfact=fy, origin=org)
-    ctx.case(("scale", fx, fy, float(src.points[0, 0])), nontrivial=True)
-    ctx.count("transform:scale" + ("_reflect" if fx * fy < 0 else ""))
-    check_stored(ctx, r, "scale", fail)
-    if abs(r.area - abs(fx * fy) * A0) > 1e-9 * A0 * abs(fx * fy):
-        fail("area:scale", f"scale({fx},{fy}) gave area {r.area}, expected |fx fy| * {A0}")
     # points map consistently with the shape: the image of an interior point is interior
     q = far_from_boundaries([src], rng.uniform(-2, 2, size=(20, 2)))
     img = (q - np.array(org)) * np.array([fx, fy]) + np.array(org)
@@ -211,6 +230,8 @@ def device_membership(ctx, rng):
         pp0 = None if dev.probe_points is None else dev.probe_points.copy()
         for tname, new_dev, fmap in (
             ("scale", sc, lambda q: q * np.array([-1.5, 2.0])),
+            ("scale_both_negative", dev.scale(xfact=-1.0, yfact=-1.0), lambda q: -q),
+            ("scale_both_negative2", dev.scale(xfact=-2.0, yfact=-0.5), lambda q: q * np.array([-2.0, -0.5])),
             ("rotate", dev.rotate(90.0), lambda q: q @ np.array([[0.0, 1.0], [-1.0, 0.0]])),
             ("translate", dev.translate(dx=0.7, dy=-0.4), lambda q: q + np.array([0.7, -0.4])),
         ):
@@ -225,6 +246,8 @@ def device_membership(ctx, rng):
                 ctx.fail(f"device-transform-probes:{tname}", f"Device.{tname}: probe points do not move with the shapes", dict(device=kind))
             if any(not np.array_equal(p_.points, b_) for p_, b_ in zip(dev.polygons, before)) or (pp0 is not None and not np.array_equal(dev.probe_points, pp0)):
                 ctx.fail("operand-mutated", f"Device.{tname} mutated the original device", dict(device=kind))
+            for p_ in new_dev.polygons:
+                check_stored(ctx, p_, f"Device.{tname}:{p_.name}", lambda k, w, **kw: ctx.fail(k, w, dict(device=kind, transform=tname, **kw)))
             if any(np.shares_memory(x.points, y.points) for x, y in zip(new_dev.polygons, dev.polygons)):
                 ctx.fail("aliasing", f"Device.{tname}: result shares polygon memory with the original", dict(device=kind))
     return first
